@@ -1,0 +1,42 @@
+//go:build verif
+
+package query
+
+// Contracts for the govc verifier (/verif/DESIGN.md). Package clause and comments only.
+//
+// C10 kernel: the criteria combinators produce models whose grouping survives emission. An operand whose
+// top-level operator binds looser than the operator joining it (openCypher: OR < XOR < AND < NOT) must be a
+// Parenthetical. groupLooserOperands establishes that for the operand list, And / Xor / Or / Not hand the
+// emitter only well-grouped operand lists.
+
+//@ import cypherModel "github.com/specterops/dawgs/cypher/models/cypher"
+//@ import graph "github.com/specterops/dawgs/graph"
+
+//@ func groupLooserOperands(operands []cypherModel.Expression, wrapExclusiveDisjunction bool) []cypherModel.Expression
+//@   modifies contents(operands)
+//@   ensures same: result.arr == operands.arr && result.off == operands.off && len(result) == len(operands)
+//@   ensures noBareOr: forall i int :: 0 <= i && i < len(result) ==> typeof(result[i]) != *cypherModel.Disjunction
+//@   ensures noBareXor: wrapExclusiveDisjunction ==> (forall i int :: 0 <= i && i < len(result) ==> typeof(result[i]) != *cypherModel.ExclusiveDisjunction)
+//@   ensures kept: forall i int :: 0 <= i && i < len(result) ==> (result[i] == old(operands[i]) || (typeof(result[i]) == *cypherModel.Parenthetical && result[i].(*cypherModel.Parenthetical).Expression == old(operands[i])))
+//@   loop 0
+//@     invariant range: -1 <= rangeindex && rangeindex < len(operands)
+//@     invariant done: forall i int :: 0 <= i && i <= rangeindex ==> typeof(operands[i]) != *cypherModel.Disjunction && (wrapExclusiveDisjunction ==> typeof(operands[i]) != *cypherModel.ExclusiveDisjunction)
+//@     invariant kept: forall i int :: 0 <= i && i <= rangeindex ==> (operands[i] == old(operands[i]) || (typeof(operands[i]) == *cypherModel.Parenthetical && allocated(operands[i].(*cypherModel.Parenthetical)) && operands[i].(*cypherModel.Parenthetical).Expression == old(operands[i])))
+//@     invariant rest: forall i int :: rangeindex < i && i < len(operands) ==> operands[i] == old(operands[i])
+
+//@ func Or(criteria ...graph.Criteria) *cypherModel.Parenthetical
+//@   nosafety
+//@   ensures result != nil && fresh(result) && typeof(result.Expression) == *cypherModel.Disjunction
+
+//@ func Not(expression graph.Criteria) *cypherModel.Negation
+//@   ensures result != nil && fresh(result) && typeof(result.Expression) == *cypherModel.Parenthetical && result.Expression.(*cypherModel.Parenthetical).Expression == expression
+
+//@ func And(criteria ...graph.Criteria) *cypherModel.Conjunction
+//@   nosafety
+//@   ensures result != nil && fresh(result)
+//@   ensures grouped: forall i int :: 0 <= i && i < len(result.expressionList.Expressions) ==> typeof(result.expressionList.Expressions[i]) != *cypherModel.Disjunction && typeof(result.expressionList.Expressions[i]) != *cypherModel.ExclusiveDisjunction
+
+//@ func Xor(criteria ...graph.Criteria) *cypherModel.ExclusiveDisjunction
+//@   nosafety
+//@   ensures result != nil && fresh(result)
+//@   ensures grouped: forall i int :: 0 <= i && i < len(result.expressionList.Expressions) ==> typeof(result.expressionList.Expressions[i]) != *cypherModel.Disjunction
